@@ -18,11 +18,12 @@ import (
 )
 
 // Trust anchors: the authorities of the case lines.
-//   0 rightCA   configured in most cases
-//   1 secondCA  configured together with 0 in the bundle cases (a ca_cert with two certificates), alone in one
-//   2 otherCA   a private authority that is never configured and not in the host's store
-//   3 sysCA     THE authority of the process's (emulated) system root store, see sysroots.go
-//   9           a self-signed certificate (its own issuer)
+//
+//	0 rightCA   configured in most cases
+//	1 secondCA  configured together with 0 in the bundle cases (a ca_cert with two certificates), alone in one
+//	2 otherCA   a private authority that is never configured and not in the host's store
+//	3 sysCA     THE authority of the process's (emulated) system root store, see sysroots.go
+//	9           a self-signed certificate (its own issuer)
 const (
 	idRight  = 0
 	idSecond = 1
@@ -51,16 +52,18 @@ type caCfg struct {
 	tok  string // authorities of the ca_cert, as on the case line
 	ids  []int
 	file bool // ca_cert is given as a file name, not inline PEM
+	sds  bool // the certificate and the validation context arrive by SDS (listener direction only)
 }
 
 var caCfgs = []caCfg{
-	{"-", nil, false},
-	{"0", []int{idRight}, false},
-	{"0", []int{idRight}, true},
-	{"0+1", []int{idRight, idSecond}, false},
-	{"1", []int{idSecond}, false},
-	{"3", []int{idSys}, false},
-	{"2+3", []int{idOther, idSys}, true},
+	{"-", nil, false, false},
+	{"0", []int{idRight}, false, false},
+	{"0", []int{idRight}, true, false},
+	{"0+1", []int{idRight, idSecond}, false, false},
+	{"1", []int{idSecond}, false, false},
+	{"3", []int{idSys}, false, false},
+	{"2+3", []int{idOther, idSys}, true, false},
+	{"0+1", []int{idRight, idSecond}, false, true},
 }
 
 // caString renders the ca_cert of a configuration (inline PEM or a file under dir).
@@ -80,11 +83,16 @@ func (k caCfg) caString(dir string) string {
 }
 
 func (k caCfg) cls() string {
+	if k.sds {
+		return "sds"
+	}
 	if k.file {
 		return "file"
 	}
 	return "pem"
 }
+
+var t2Seq int
 
 const storeTok = "3" // the host's root store of this process: {sysCA}
 
@@ -141,11 +149,27 @@ func runTrust2Server(c *hx.Ctx, l *loop, dir string, reps int) {
 		ca := k.caString(dir)
 		for _, req := range []bool{false, true} {
 			for _, ver := range []bool{false, true} {
-				mng, err := buildManager([]*ctxSpec{{kind: kStatic, cn: "server.test", sans: []string{"server.test"}}}, false, func(i int, t *v2.TLSConfig) {
-					t.RequireClientCert, t.VerifyClient, t.CACert = req, ver, ca
+				kind, valName := kStatic, ""
+				if k.sds {
+					t2Seq++
+					kind, valName = kSdsPost, fmt.Sprintf("t2val%d", t2Seq)
+				}
+				mng, err := buildManager([]*ctxSpec{{kind: kind, cn: "server.test", sans: []string{"server.test"}}}, false, func(i int, t *v2.TLSConfig) {
+					t.RequireClientCert, t.VerifyClient = req, ver
+					if k.sds {
+						t.SdsConfig.ValidationConfig = &v2.SecretConfigWrapper{Name: valName}
+					} else {
+						t.CACert = ca
+					}
 				})
 				if err != nil {
 					panic(err)
+				}
+				if k.sds {
+					sdsClient.SetSecret(valName, &types.SdsSecret{Name: valName, ValidationPEM: ca})
+					if !mng.Enabled() {
+						panic("c13: sds context not ready after the validation secret")
+					}
 				}
 				for _, p := range peers {
 					for rep := 0; rep < reps; rep++ {
@@ -177,11 +201,11 @@ func runTrust2Server(c *hx.Ctx, l *loop, dir string, reps int) {
 const upstreamURI = "spiffe://verif.test/ns/upstream"
 
 type scert2 struct {
-	name            string
-	issuer          int
-	expired         bool
-	nameOK, uriOK   bool
-	cert            gotls.Certificate
+	name          string
+	issuer        int
+	expired       bool
+	nameOK, uriOK bool
+	cert          gotls.Certificate
 }
 
 func (s *scert2) tok() string {
@@ -234,6 +258,9 @@ func runTrust2Client(c *hx.Ctx, l *loop, dir string) {
 	servers := makeServers2()
 	n := 0
 	for _, k := range caCfgs {
+		if k.sds {
+			continue
+		}
 		ca := k.caString(dir)
 		for _, hook := range []bool{false, true} {
 			for _, ins := range []bool{false, true} {
